@@ -80,17 +80,31 @@ func VerifHandBufLen(c *Conn) int { return c.handBuf.Len() }
 
 // VerifWriteHandshakeFinished sends a Finished-typed handshake message with the given
 // message_seq and body through writeHandshakeRecord (so: through the sender's
-// fragmentation) and returns its unfragmented encoding.
-func VerifWriteHandshakeFinished(c *Conn, seq uint16, body []byte) (full []byte, n int, err error) {
+// fragmentation). It returns the unfragmented encoding as marshal() gave it before the
+// write and what marshal() of the same message object returns after the write (what a
+// transcript that hashes the message later, as the client does for its ClientHello, sees).
+func VerifWriteHandshakeFinished(c *Conn, seq uint16, body []byte) (before, after []byte, n int, err error) {
 	m := &finishedMsg{verifyData: body}
 	m.setMessageSeq(seq)
-	full, err = m.marshal()
+	before, err = m.marshal()
 	if err != nil {
-		return nil, 0, err
+		return nil, nil, 0, err
 	}
-	full = append([]byte(nil), full...)
+	before = append([]byte(nil), before...)
 	n, err = c.writeHandshakeRecord(m, nil)
-	return full, n, err
+	after, merr := m.marshal()
+	if merr != nil {
+		after = nil
+	}
+	return before, append([]byte(nil), after...), n, err
+}
+
+// VerifHandshakeOutcome returns the randomness-independent outcome of a completed handshake
+// as this end sees it: both verify_data values, version, suite, resumption flag and the
+// number of peer certificates.
+func VerifHandshakeOutcome(c *Conn) (clientFinished, serverFinished []byte, vers, suite uint16, resumed bool, nPeer int) {
+	return append([]byte(nil), c.clientFinished[:]...), append([]byte(nil), c.serverFinished[:]...),
+		c.vers, c.cipherSuite, c.didResume, len(c.peerCertificates)
 }
 
 // VerifMaxPayloadSizeForWrite calls maxPayloadSizeForWrite(handshake) on the connection.
